@@ -18,6 +18,7 @@ from sympy import Symbol
 from sympy.logic import And, Not, Or, Xor
 from sympy.logic.boolalg import Boolean, BooleanFalse, BooleanTrue
 
+from .. import _verif
 from ..ast2logic.typing import Arg, Args, BoolExpList
 from ..boolquant import QuantumBooleanGate
 from ..qcircuit import QCircuit, QCircuitEnhanced
@@ -47,6 +48,15 @@ class InternalCompiler(Compiler):
         self.input_symbols = [arg_b for arg in args for arg_b in arg.bitvec]
         [qc.add_qubit(arg) for arg in self.input_symbols]
 
+        if _verif.ON:
+            _verif.emit(
+                "ic.begin",
+                inputs=list(self.input_symbols),
+                rets=list(returns.bitvec) if returns is not None else [],
+                uncompute=bool(uncompute),
+                n_exprs=len(exprs),
+            )
+
         # 2. Iterate over all expressions; iret contains qubit index for the current exp
         for sym, exp in exprs:
             # self.remaining_exps.pop(0)
@@ -69,13 +79,28 @@ class InternalCompiler(Compiler):
             if not is_temp:
                 self.expqmap.remove(qc.uncompute())
 
+            if _verif.ON:
+                _verif.emit(
+                    "ic.stmt",
+                    sym=sym.name,
+                    iret=int(iret),
+                    n_gates=len(qc.gates),
+                    n_qubits=int(qc.num_qubits),
+                )
+
         # 3. Remove identities gates (ie: X - X)
         qc.remove_identities()
+
+        if _verif.ON:
+            _verif.emit("ic.rmid", n_gates=len(qc.gates))
 
         # 4. Uncompute qubits
         if uncompute and (returns is not None):
             keep = [qc[r] for r in filter(lambda r: r in qc, returns.bitvec)]
             qc.uncompute_all(keep=keep)
+
+        if _verif.ON:
+            _verif.emit("ic.end", n_gates=len(qc.gates), n_qubits=int(qc.num_qubits))
 
         return qc
 
@@ -164,6 +189,8 @@ class InternalCompiler(Compiler):
 
         # 4. Perform the MCX between all args
         erets = list(set(erets))
+        if _verif.ON:
+            _verif.emit("ic.operands", op="and", order=[int(x) for x in erets])
         qc.mcx(erets, dest)
 
         # 5. Mark ancilla every argument and return
@@ -187,6 +214,8 @@ class InternalCompiler(Compiler):
             erets.remove(dest)
 
         erets = list(set(erets))
+        if _verif.ON:
+            _verif.emit("ic.operands", op="or", order=[int(x) for x in erets])
 
         if len(erets) <= 2:
             # . Perform the CX between all args and dest
